@@ -30,6 +30,15 @@ pub enum Class {
     LetrecSelfTask,
     PlainVariant,
     StatefulHof,
+    GlobalBoxedSum,
+    GlobalRecordBox,
+    GlobalSelectedFn,
+    GlobalTupleBoxIgnore,
+    GlobalTupleBoxNamed,
+    GlobalTupleClosure,
+    GlobalTupleClosureIgnore,
+    GlobalTree,
+    InplaceCallsGlobalClosure,
     // ---- known findings on the pinned tree (rate per dsp call in `rate()`)
     LocalCaptureBound,
     ReturnedBound,
@@ -43,9 +52,11 @@ pub enum Class {
     SchedInlineFromDsp,
     SchedNamedFromDsp,
     SchedSelfNamed,
+    LocalIfSelectedFn,
+    LocalTupleClosure,
 }
 
-pub const STABLE: [Class; 9] = [
+pub const STABLE: [Class; 18] = [
     Class::LocalNoCapture,
     Class::InplaceCapturing,
     Class::GlobalClosureCalled,
@@ -55,8 +66,17 @@ pub const STABLE: [Class; 9] = [
     Class::LetrecSelfTask,
     Class::PlainVariant,
     Class::StatefulHof,
+    Class::GlobalBoxedSum,
+    Class::GlobalRecordBox,
+    Class::GlobalSelectedFn,
+    Class::GlobalTupleBoxIgnore,
+    Class::GlobalTupleBoxNamed,
+    Class::GlobalTupleClosure,
+    Class::GlobalTupleClosureIgnore,
+    Class::GlobalTree,
+    Class::InplaceCallsGlobalClosure,
 ];
-pub const LEAKY: [Class; 12] = [
+pub const LEAKY: [Class; 14] = [
     Class::LocalCaptureBound,
     Class::ReturnedBound,
     Class::ReturnedInplace,
@@ -69,6 +89,8 @@ pub const LEAKY: [Class; 12] = [
     Class::SchedInlineFromDsp,
     Class::SchedNamedFromDsp,
     Class::SchedSelfNamed,
+    Class::LocalIfSelectedFn,
+    Class::LocalTupleClosure,
 ];
 
 impl Class {
@@ -83,6 +105,17 @@ impl Class {
             Class::LetrecSelfTask => "letrec-self-rescheduling-task",
             Class::PlainVariant => "non-recursive-variant-match",
             Class::StatefulHof => "stateful-higher-order-made-by-main",
+            Class::GlobalBoxedSum => "boxed-list-made-by-main-folded-in-dsp",
+            Class::GlobalRecordBox => "record-with-boxed-field-made-by-main",
+            Class::GlobalSelectedFn => "function-selected-by-if-at-global-scope",
+            Class::GlobalTupleBoxIgnore => "global-tuple-with-boxed-element-destructured-with-placeholder",
+            Class::GlobalTupleBoxNamed => "global-tuple-with-boxed-element-destructured-by-name",
+            Class::GlobalTupleClosure => "global-tuple-with-closure-destructured-by-name",
+            Class::GlobalTupleClosureIgnore => "global-tuple-with-closure-destructured-with-placeholder",
+            Class::GlobalTree => "boxed-tree-made-by-main-folded-in-dsp",
+            Class::InplaceCallsGlobalClosure => "in-place-lambda-calling-a-global-closure",
+            Class::LocalIfSelectedFn => "function-selected-by-if-bound-in-dsp",
+            Class::LocalTupleClosure => "closure-inside-a-tuple-bound-in-dsp",
             Class::LocalCaptureBound => "capturing-local-closure-bound",
             Class::ReturnedBound => "closure-returned-from-callee-bound",
             Class::ReturnedInplace => "closure-returned-from-callee-called-in-place",
@@ -101,7 +134,8 @@ impl Class {
     /// the unit is "per firing".
     pub fn rate(&self, p: &Inst) -> (u64, u64) {
         match self {
-            Class::LocalCaptureBound => (1, 0),
+            Class::LocalCaptureBound | Class::LocalIfSelectedFn => (1, 0),
+            Class::LocalTupleClosure => (1, 1),
             Class::ReturnedBound
             | Class::ReturnedInplace
             | Class::PassedLambda
@@ -122,6 +156,8 @@ impl Class {
         )
     }
 }
+
+const LIST_DEF: &str = "type rec List = Nil | Cons(float, List)\nfn sum(list: List) -> float {\n  match list {\n    Nil => 0.0,\n    Cons(head, tail) => head + sum(tail)\n  }\n}\n";
 
 /// One construct instance inside a program.
 #[derive(Clone, Debug, PartialEq, Serialize, Deserialize)]
@@ -195,6 +231,74 @@ impl Inst {
                 format!("  let r{i} = my{i}({k});\n"),
                 format!("r{i}"),
             ),
+            Class::GlobalBoxedSum => (
+                format!("{}let tb{i} = Cons({k}, Cons(2.0, Cons(3.0, Nil)))\n", LIST_DEF),
+                format!("  let r{i} = sum(tb{i}) + now;\n"),
+                format!("r{i}"),
+            ),
+            Class::GlobalRecordBox => (
+                format!("{}let rc{i} = {{lst = Cons({k}, Cons(2.0, Nil)), gain = 0.5}}\n", LIST_DEF),
+                format!("  let r{i} = sum(rc{i}.lst) * rc{i}.gain + now;\n"),
+                format!("r{i}"),
+            ),
+            Class::GlobalSelectedFn => (
+                format!(
+                    "fn saw{i}(p){{\n  p * 2.0 - 1.0\n}}\nfn sq{i}(p){{\n  if (p > 0.5) {{ 1.0 }} else {{ -1.0 }}\n}}\nlet sel{i} = {k}\nlet sh{i} = if (sel{i} > {t}) {{ saw{i} }} else {{ sq{i} }}\n",
+                    t = lit((n as f64) * 0.9)
+                ),
+                format!("  let r{i} = sh{i}(now * 0.25);\n"),
+                format!("r{i}"),
+            ),
+            Class::GlobalTupleBoxIgnore => (
+                format!("{}let tp{i} = (Cons({k}, Cons(2.0, Cons(3.0, Nil))), 0.5)\n", LIST_DEF),
+                // the boxed element is only looked at late (and then on every call): before that,
+                // the placeholder binding is the only thing that touches it
+                format!(
+                    "  let (_, g{i}) = tp{i};\n  let r{i} = if (now > {late}) {{ sum(tp{i}.0) * g{i} }} else {{ g{i} + now }};\n",
+                    late = lit((n * n * 3) as f64)
+                ),
+                format!("r{i}"),
+            ),
+            Class::GlobalTupleBoxNamed => (
+                format!("{}let tp{i} = (Cons({k}, Cons(2.0, Cons(3.0, Nil))), 0.5)\n", LIST_DEF),
+                format!("  let (l{i}, g{i}) = tp{i};\n  let r{i} = sum(l{i}) * g{i} + now;\n"),
+                format!("r{i}"),
+            ),
+            Class::GlobalTupleClosure => (
+                format!("fn mk{i}(q){{\n  |x| x * q\n}}\nlet pr{i} = (mk{i}({k}), 2.0)\n"),
+                format!("  let (f{i}, k{i}) = pr{i};\n  let r{i} = f{i}(k{i} + now);\n"),
+                format!("r{i}"),
+            ),
+            Class::GlobalTupleClosureIgnore => (
+                format!("fn mk{i}(q){{\n  |x| x * q\n}}\nlet pr{i} = (mk{i}({k}), 2.0)\n"),
+                format!(
+                    "  let (_, k{i}) = pr{i};\n  let r{i} = if (now > {late}) {{ pr{i}.0(k{i}) }} else {{ k{i} + now }};\n",
+                    late = lit((n * n * 3) as f64)
+                ),
+                format!("r{i}"),
+            ),
+            Class::GlobalTree => (
+                format!(
+                    "type rec Tree = Leaf(float) | Node(Tree, Tree)\nfn total(t: Tree) -> float {{\n  match t {{\n    Leaf(v) => v,\n    Node(a, b) => total(a) + total(b)\n  }}\n}}\nlet tr{i} = Node(Node(Leaf({k}), Leaf(2.0)), Leaf(3.0))\n"
+                ),
+                format!("  let r{i} = total(tr{i}) + now;\n"),
+                format!("r{i}"),
+            ),
+            Class::InplaceCallsGlobalClosure => (
+                format!("fn mk{i}(q){{\n  |x| x * q\n}}\nlet g{i} = mk{i}({k})\n"),
+                format!("  let r{i} = (|y| g{i}(y) + 1.0)(now);\n"),
+                format!("r{i}"),
+            ),
+            Class::LocalIfSelectedFn => (
+                format!("fn saw{i}(p){{\n  p * 2.0 - 1.0\n}}\nfn sq{i}(p){{\n  p * p\n}}\n"),
+                format!("  let f{i} = if (now > {k}) {{ saw{i} }} else {{ sq{i} }};\n  let r{i} = f{i}(now);\n"),
+                format!("r{i}"),
+            ),
+            Class::LocalTupleClosure => (
+                String::new(),
+                format!("  let (f{i}, k{i}) = (|x| x + {k}, now);\n  let r{i} = f{i}(k{i});\n"),
+                format!("r{i}"),
+            ),
             Class::LocalCaptureBound => (
                 String::new(),
                 format!("  let k{i} = now + {k};\n  let f{i} = |x| x + k{i};\n  let r{i} = f{i}(2.0);\n"),
@@ -238,13 +342,13 @@ impl Inst {
                     cons = format!("Cons({}, {cons})", lit(self.k + j as f64));
                 }
                 (
-                    "type rec List = Nil | Cons(float, List)\nfn sum(list: List) -> float {\n  match list {\n    Nil => 0.0,\n    Cons(head, tail) => head + sum(tail)\n  }\n}\n".to_string(),
+                    LIST_DEF.to_string(),
                     format!("  let l{i} = {cons};\n  let r{i} = sum(l{i});\n"),
                     format!("r{i}"),
                 )
             }
             Class::BoxedShared => (
-                "type rec List = Nil | Cons(float, List)\nfn sum(list: List) -> float {\n  match list {\n    Nil => 0.0,\n    Cons(head, tail) => head + sum(tail)\n  }\n}\n".to_string(),
+                LIST_DEF.to_string(),
                 format!(
                     "  let l{i} = Cons({k}, Cons(2.0, Cons(3.0, Nil)));\n  let s{i}a = sum(l{i});\n  let s{i}b = sum(l{i});\n  let r{i} = s{i}a + s{i}b;\n"
                 ),
@@ -301,7 +405,21 @@ impl C12Scenario {
         for inst in &self.insts {
             let (d, b, r) = inst.render();
             // the boxed classes share one List definition
-            if seen.insert(d.clone()) {
+            let d = if d.starts_with(LIST_DEF) {
+                if seen.insert(LIST_DEF.to_string()) {
+                    defs.push_str(LIST_DEF);
+                }
+                d[LIST_DEF.len()..].to_string()
+            } else if d.starts_with("type rec Tree") {
+                let cut = d.find("let tr").unwrap_or(d.len());
+                if seen.insert(d[..cut].to_string()) {
+                    defs.push_str(&d[..cut]);
+                }
+                d[cut..].to_string()
+            } else {
+                d
+            };
+            if d.is_empty() || seen.insert(d.clone()) {
                 defs.push_str(&d);
             }
             body.push_str(&b);
@@ -341,6 +459,7 @@ fn classify_panic(msg: &str) -> bool {
     let m = msg.to_lowercase();
     m.contains("closure") || m.contains("slotmap") || m.contains("heapidx") || m.contains("refcount")
         || m.contains("subtract with overflow") || m.contains("invalid key") || m.contains("unwrap()` on a `none`")
+        || m.contains("invalid indirect callable") || m.contains("invalid heap index") || m.contains("boxload")
 }
 
 pub fn run(sc: &C12Scenario) -> RunResult {
@@ -464,6 +583,19 @@ pub fn run(sc: &C12Scenario) -> RunResult {
         let now = counts(&sut);
         let lim = bound.at(t);
         h = (h ^ now.0 ^ (now.1 << 20)).wrapping_mul(0x1000_0000_01b3);
+        if !sc.needs_scheduler() && (now.0 < c0.0 || now.1 < c0.1) {
+            // without tasks, everything alive after `main` is owned by a global and globals never
+            // die: a count below that baseline means an object a global still refers to was freed
+            violation = Some(Outcome::Violation {
+                clause: "released-below-main-baseline".into(),
+                detail: format!(
+                    "after sample {t}: (closures, heap) = {now:?} fell below the baseline after main {c0:?}; classes {:?}",
+                    sc.insts.iter().map(|i| i.class.name()).collect::<Vec<_>>()
+                ),
+                at_sample: t,
+            });
+            break;
+        }
         if now.0 > lim.0 || now.1 > lim.1 {
             violation = Some(Outcome::Violation {
                 clause: "growth-above-listed-rate".into(),
@@ -574,6 +706,26 @@ pub fn gen_c12(seed: u64) -> C12Scenario {
                 _ => r.range(1, 7),
             },
         });
+    }
+    // A function value selected at global scope is a bare closure handle; on the pinned tree the
+    // VM decodes such a handle correctly only when it is the first closure `main` creates (index
+    // and version coincide), otherwise the call dies with "Invalid indirect callable" although the
+    // closure is alive (a crash of an accepted program, not this property's subject). Keep at most
+    // one such construct and put it first, so that this panic, when it does appear, means the
+    // closure is gone.
+    let mut seen_sel = false;
+    insts.retain(|i| {
+        if i.class == Class::GlobalSelectedFn {
+            let keep = !seen_sel;
+            seen_sel = true;
+            keep
+        } else {
+            true
+        }
+    });
+    if let Some(pos) = insts.iter().position(|i| i.class == Class::GlobalSelectedFn) {
+        let x = insts.remove(pos);
+        insts.insert(0, x);
     }
     let uses_sched = insts.iter().any(|i| i.class.needs_scheduler());
     let mut swaps = vec![];
